@@ -1682,7 +1682,7 @@ func TestVerifC14Concurrent(t *testing.T) {
 	// unwrapped bbolt backend: the hint cache's real Batch path.
 	cache, closeDB := verifC14OpenCache(t, "conc", true)
 	defer closeDB()
-	total := vc.N(160, 4000)
+	total := vc.N(160, 12000)
 	for i := 0; i < total; i++ {
 		if !vc.Mine(i) {
 			continue
